@@ -10,10 +10,10 @@ PROP = "C05"
 
 def workload(tier: str, seed: int) -> tuple[list[dict], dict]:
     if tier == "quick":
-        want = {"corpus": 1, "core-exh": 110, "core-rand": 60, "edge": 40, "same-end": 40, "bunched": 20}
+        want = {"corpus": 1, "core-exh": 110, "core-rand": 60, "edge": 40, "same-end": 40, "bunched": 20, "loop-families": 1}
         ks, s2 = (2,), 1
     else:
-        want = {"corpus": 1, "core-exh": 100000, "core-rand": 1500, "edge": 400, "same-end": 500, "bunched": 1000}
+        want = {"corpus": 1, "core-exh": 100000, "core-rand": 1500, "edge": 400, "same-end": 500, "bunched": 1000, "loop-families": 1}
         ks, s2 = (2, 3), 3
     defs = lcase.definitions(tier, seed + 2000, want)
     cases, stats = lcase.s1_cases(defs, seed, k_list=ks, schedules=2, check_extra=False)
